@@ -3,8 +3,11 @@ package props
 import (
 	"context"
 	"encoding/binary"
+	"errors"
 	"fmt"
 	"hash/fnv"
+	"io"
+	"os"
 	"runtime"
 	"strconv"
 	"strings"
@@ -27,6 +30,8 @@ type jMsg struct {
 	// BadID: the message violates the replayer's ID mode (carries an ID with automatic IDs, none
 	// with manual IDs): Put rejects it, Publish returns that error, the message is still delivered.
 	BadID bool `json:"bad_id,omitempty"`
+	// EmptyID (manual IDs only): the message carries an ID that is set but empty.
+	EmptyID bool `json:"empty_id,omitempty"`
 }
 
 type jSub struct {
@@ -74,6 +79,8 @@ type jScenario struct {
 	PrefixGaps []int64 `json:"prefix_gaps,omitempty"`
 	ValidTTL   int64   `json:"valid_ttl,omitempty"`
 	// PutLatency / ReplayLatency: virtual ns spent inside every Put / Replay call
+	// ErrKind: flavour of every injected error of this scenario (mon.ErrKinds)
+	ErrKind string `json:"err_kind,omitempty"`
 	PutLatency    int64 `json:"put_latency,omitempty"`
 	ReplayLatency int64 `json:"replay_latency,omitempty"`
 	Subs        []jSub         `json:"subs"`
@@ -225,6 +232,9 @@ func (sc *jScenario) newMessage(m jMsg) *sse.Message {
 	msg.AppendData(m.Token)
 	if sc.manualIDs() != m.BadID {
 		msg.ID = sse.ID("id-" + m.Token)
+		if m.EmptyID {
+			msg.ID = sse.ID("")
+		}
 	}
 	return msg
 }
@@ -266,7 +276,7 @@ func runJoe(t *testing.T, sc *jScenario) (tr *jTrace) {
 			if err != nil {
 				panic(err)
 			}
-			rec = &mon.RecReplayer{Inner: inner, Clock: clock, PutFault: sc.PutFault, ReplayFault: sc.ReplayFault, PutLatency: time.Duration(sc.PutLatency), ReplayLatency: time.Duration(sc.ReplayLatency)}
+			rec = &mon.RecReplayer{Inner: inner, Clock: clock, PutFault: sc.PutFault, ReplayFault: sc.ReplayFault, PutLatency: time.Duration(sc.PutLatency), ReplayLatency: time.Duration(sc.ReplayLatency), ErrKind: sc.ErrKind, WrapTargets: jWrapTargets}
 			joe.Replayer = rec
 			tr.HasRec = true
 		}
@@ -298,6 +308,14 @@ func runJoe(t *testing.T, sc *jScenario) (tr *jTrace) {
 				d, _ := strconv.ParseInt(st.Spec.Ctx[len("deadline:"):], 10, 64)
 				st.VDeadline = time.Since(base) + time.Duration(d)
 				ctx, cancel = context.WithTimeout(ctx, time.Duration(d))
+			case st.Spec.Ctx == "cancelled_cause":
+				c2, cc := context.WithCancelCause(ctx)
+				cc(errShutdownCause)
+				ctx, cancel = c2, func() {}
+			case strings.HasPrefix(st.Spec.Ctx, "deadline_cause:"):
+				d, _ := strconv.ParseInt(st.Spec.Ctx[len("deadline_cause:"):], 10, 64)
+				st.VDeadline = time.Since(base) + time.Duration(d)
+				ctx, cancel = context.WithTimeoutCause(ctx, time.Duration(d), errShutdownCause)
 			}
 			defer cancel()
 			st.CallStamp = clock.Tick()
@@ -332,7 +350,7 @@ func runJoe(t *testing.T, sc *jScenario) (tr *jTrace) {
 			ctx, cancel := context.WithCancel(context.Background())
 			cl := &mon.RecClient{Name: spec.Name, Clock: clock, FailSendAt: spec.FailSendAt, FailFlushAt: spec.FailFlushAt}
 			if spec.FailSendAt > 0 || spec.FailFlushAt > 0 {
-				cl.Err = &mon.InjectedError{Where: "client:" + spec.Name, N: spec.FailSendAt*100 + spec.FailFlushAt}
+				cl.Err = mon.NewInjected("client:"+spec.Name, spec.FailSendAt*100+spec.FailFlushAt, sc.ErrKind, jWrapTargets)
 				st.FailErr = cl.Err
 			}
 			cl.OnCall = func(op string, n int, failing bool) {
@@ -463,7 +481,25 @@ func runJoe(t *testing.T, sc *jScenario) (tr *jTrace) {
 	return tr
 }
 
-var allTopics = []string{"a", "b", "c", sse.DefaultTopic}
+var errShutdownCause = errors.New("injected shutdown-context cause")
+
+var allTopics = append([]string{"a", "b", "c", sse.DefaultTopic}, func() []string {
+	var u []string
+	for i := 0; i < 20; i++ {
+		u = append(u, "topic-"+strconv.Itoa(i))
+	}
+	return u
+}()...)
+
+// jWrapTargets: what injected errors may wrap (they stay failures of their own).
+var jWrapTargets = map[string]error{
+	"wraps_canceled":        context.Canceled,
+	"wraps_deadline":        context.DeadlineExceeded,
+	"wraps_eof":             io.EOF,
+	"wraps_no_topic":        sse.ErrNoTopic,
+	"wraps_provider_closed": sse.ErrProviderClosed,
+	"wraps_os_deadline":     os.ErrDeadlineExceeded,
+}
 
 func filterStacks(s string) string {
 	var out []string
